@@ -341,6 +341,18 @@ def micro_scenarios():
         "conns": [_c("W", "po", "E", "ti", weak=True), _c("E", "po", "C", "mi"),
                   _c("C", "po", "E", "mi", shift=1, init=True)],
         "until": 4}
+    # a same-time loop P <-> Q in a group; S in the same group is triggered plainly by P and also reads a slow
+    # outside simulator R, so S's step (t,0) can be computed while P's later iteration (t,1) is in flight; that
+    # iteration announces P's next time step (not known to any queue before) and emits towards S again
+    out["loop_member_feeds_groupmate_held_back"] = {
+        "tree": [["P", "Q", "S"], "R"],
+        "sims": [dict(_sim("P", "event-based", steps=[0, 1], emit=[1], budget=2), transport="mem"),
+                 _sim("Q", "event-based", emit=[1], budget=1),
+                 _sim("S", "hybrid", steps=[0], emit=[0]),
+                 dict(_sim("R", "time-based", steps=[1]), transport="mem")],
+        "conns": [_c("P", "eo", "Q", "ti"), _c("Q", "eo", "P", "ti", weak=True), _c("P", "eo", "S", "ti"),
+                  _c("R", "po", "S", "mi")],
+        "initial_events": {"P": 0}, "until": 3}
     # value shapes: measurements that are falsy JSON values (an explicit None, 0, "", False, [], {}) between ordinary
     # ones, read by a faster and a slower consumer
     out["falsy_measurements"] = {
